@@ -514,6 +514,16 @@ class NPProxy:
     def _dt(dtype):
         return object if dtype is None or dtype is float else dtype
 
+    def asarray(self, a, dtype=None, **kw):
+        """numpy.asarray returns its argument itself when it already is an array of the requested type - callers that then write
+        in place modify the caller's data.  The exact arrays (dtype=object) play the role of float arrays here."""
+        if isinstance(a, _np.ndarray) and a.dtype == object and (dtype is None or dtype is float):
+            return a
+        return _np.asarray(a, dtype=self._dt(dtype), **kw)
+
+    def array(self, a, dtype=None, **kw):
+        return _np.array(a, dtype=self._dt(dtype), **kw)
+
     def empty(self, shape, dtype=None, **kw):
         return _np.empty(shape, dtype=self._dt(dtype), **kw)
 
@@ -936,13 +946,14 @@ class time_limit:
     def _raise(self, *a):
         raise CaseTimeout()
 
+    # budgets are in CPU seconds of this process (ITIMER_PROF), not wall-clock: a verdict must not depend on how busy the machine is
     def __enter__(self):
-        self.old = signal.signal(signal.SIGALRM, self._raise)
-        signal.alarm(self.secs)
+        self.old = signal.signal(signal.SIGPROF, self._raise)
+        signal.setitimer(signal.ITIMER_PROF, float(self.secs))
 
     def __exit__(self, *a):
-        signal.alarm(0)
-        signal.signal(signal.SIGALRM, self.old)
+        signal.setitimer(signal.ITIMER_PROF, 0.0)
+        signal.signal(signal.SIGPROF, self.old)
         return False
 
 
@@ -1010,7 +1021,7 @@ class Cases:
         self.unit = unit
         Shadow()                  # warm-up (imports cobyqa / scipy / sympy.polys) outside of every case budget
         selftest()
-        self.t_end = time.time() + budget_s * (6 if THOROUGH else 1)
+        self.t_end = time.process_time() + budget_s * (6 if THOROUGH else 1)          # CPU seconds, see time_limit
         self.skipped = []
         self.timings = []
 
@@ -1029,7 +1040,7 @@ class Cases:
 
     def run(self, label, fn, per_case_s=20.0, required=False):
         """fn(emit) performs the case and calls emit(name, ok, note) for each obligation of the case."""
-        remaining = self.t_end - time.time()
+        remaining = self.t_end - time.process_time()
         lim = min(per_case_s * (6 if THOROUGH else 1), remaining)
         if lim < 1:
             if required:
